@@ -396,9 +396,25 @@ def judge_c07(case, o, r):
         fails.append(fail("c07:printed-matrix-shape:" + t, "cannot read an {0}x{0} correlation matrix "
                           "from str(result)".format(m), case, impl=o["str"]))
         printed = None
+    hi = G.parse_corr_matrix(o["str_hi"]) if o.get("str_hi") else None
+    if hi is not None and (printed is None or len(hi) != m * m or any(
+            not abs(a - b) <= 5.1e-4 * max(1.0, abs(b)) for a, b in zip(printed, hi))):
+        hi = None           # not the same matrix at higher precision: use the 3-decimal text only
     for i in range(m):
         for j in range(m):
             cv, cb = fb(r["corr"][i][j])
+            if hi is not None and i != j and math.isfinite(cv) and cb <= 1e-9:
+                # full precision: equal to the registered correlation, or to it rounded to the 3
+                # decimals of the display
+                hv = hi[i * m + j]
+                if not (abs(hv - cv) <= 1e-9 + 64 * cb or abs(hv - round(cv, 3)) <= 1e-12):
+                    fails.append(fail(
+                        "c07:reported-correlation:" + t,
+                        "entry ({},{}) of the reported correlation matrix is {!r} (str(result) with "
+                        "numpy printing 17 digits); the parameter uncertainties and the registered "
+                        "covariance give {!r}".format(i, j, hv, cv), case, impl=hv, expected=cv,
+                        clause="uncertainties, printed matrix and registered correlations from one "
+                               "covariance"))
             if i == j:
                 if o["regcorr"][i][j] != 1.0:
                     fails.append(fail("c07:self-correlation", "get_correlation(p, p) != 1", case,
@@ -440,6 +456,12 @@ def run_c07(ctx, cases, ref=False):
         u = c.get("scale", [1.0, 1.0])
         dist["units:x*{:g}".format(u[0])] += 1
         dist["units:y*{:g}".format(u[1])] += 1
+        if "exception" in o and c["sy"] == "yzeros":
+            # the library's first pass (sigma = sigma_y, some exactly 0) is not a least-squares
+            # problem; when it does not get through the case says nothing
+            skipped += 1
+            dist["skipped-first-pass-with-sigma_y=0"] += 1
+            continue
         if "exception" in o:
             raised.append((c, o))
             continue
